@@ -28,6 +28,9 @@ VALID = [
     "CC(=O)O.OCC>>CC(=O)OCC", "CCBr.[OH-]>>CCO", "CC(=O)Cl.OC>>CC(=O)OC", "CCN.CC(=O)Cl>>CCNC(C)=O",
     "CC(=O)OCC>>CCO", "CC(=O)OC>>CC(=O)O", "CC(=O)NC>>CN", "c1ccccc1C(=O)OC>>OC",
     "CCCO>>CCC=O", "CC(C)=O>>CC(C)O",
+    # valid but unusual spellings: explicit aromatic bonds / explicit hydrogens / ring closure across a dot
+    "[cH]1:[cH]:[cH]:[cH]:[cH]:[c]:1-C(=O)Cl.N>>N-C(=O)-c1:c:c:c:c:c:1", "[H]OC([H])([H])C.CC(=O)Cl>>CCOC(C)=O",
+    "C1.O1.CC(=O)Cl>>COC(C)=O",
 ]
 MALFORMED = {
     "unparsable": "CC(C>>CCO",
@@ -39,6 +42,7 @@ MALFORMED = {
     "one_gt": "CCO>CC=O",
     "missing": None,
     "missing_nan": float("nan"),
+    "empty_record": "<empty record>",
 }
 EMPTYSIDE = {"empty_product": "CCOC>>", "empty_reactant": ">>CCN"}
 SOURCES = ["list_str", "list_dict", "csv", "json"]
@@ -66,7 +70,7 @@ def plan(tier, seed):
     kinds = list(MALFORMED) + list(EMPTYSIDE)
 
     def add(seq_kinds, bs, source):
-        if source == "list_str" and ("missing" in seq_kinds or "missing_nan" in seq_kinds):
+        if source == "list_str" and ({"missing", "missing_nan", "empty_record"} & set(seq_kinds)):
             source = "list_dict"
         cases.append({"seq": build(seq_kinds, rng), "bs": bs, "source": source})
 
@@ -103,12 +107,15 @@ def plan(tier, seed):
         sk = ["v"] * n
         if i % 3 != 2:
             for p in rng.sample(range(n), 1 + (i % 2)):
-                sk[p] = rng.choice([k for k in kinds])
+                sk[p] = rng.choice([k for k in kinds if k != "empty_record"])
         if sk[0] != "v":
             sk[0], sk[-1] = sk[-1], sk[0]  # the CLI validates the first row itself
         if sk[0] != "v":
             sk[0] = "v"
-        shards.append({"cli": {"seq": build(sk, rng), "bs": [None, 2, 1][i % 3],
+        seq = build(sk, rng)
+        if seq[0][1] not in VALID[:14]:  # the CLI validates the first row with its own reaction parser
+            seq[0] = ("v", VALID[i % 14])
+        shards.append({"cli": {"seq": seq, "bs": [None, 2, 1][i % 3],
                                "cols": ["tag"] if i % 2 else ["tag", "tag2"]}})
     return shards
 
@@ -118,7 +125,7 @@ def make_input(case, tmp):
     src = case["source"]
     if src == "list_str":
         return [v for _, v in seq]
-    dicts = [{"reaction": v, "tag": "t%d" % i} for i, (_, v) in enumerate(seq)]
+    dicts = [({} if k == "empty_record" else {"reaction": v, "tag": "t%d" % i}) for i, (k, v) in enumerate(seq)]
     if src == "list_dict":
         return dicts
     from synrbl.SynUtils.batching import Dataset
@@ -132,6 +139,9 @@ def make_input(case, tmp):
         w = csv.writer(f)
         w.writerow(["reaction", "tag"])
         for d in dicts:
+            if not d:
+                f.write("\r\n")  # a blank line: the dataset reader yields an empty record for it
+                continue
             w.writerow(["" if not isinstance(d["reaction"], str) else d["reaction"], d["tag"]])
     return Dataset(p)
 
